@@ -11,6 +11,7 @@ import (
 	"io"
 	"net"
 	"net/http"
+	"runtime/debug"
 	"strings"
 	"sync"
 	"sync/atomic"
@@ -50,6 +51,7 @@ const (
 	statCopyShardReq        = "copyShardReq"
 	statRemoveShardReq      = "removeShardReq"
 	statListShardsReq       = "listShardsReq"
+	statHandlerPanic        = "handlerPanic"
 )
 
 const (
@@ -227,6 +229,7 @@ type Statistics struct {
 	CopyShardReq        int64
 	RemoveShardReq      int64
 	ListShardsReq       int64
+	HandlerPanic        int64
 }
 
 // Statistics returns statistics for periodic monitoring.
@@ -247,6 +250,7 @@ func (s *Service) Statistics(tags map[string]string) []models.Statistic {
 			statCopyShardReq:        atomic.LoadInt64(&s.stats.CopyShardReq),
 			statRemoveShardReq:      atomic.LoadInt64(&s.stats.RemoveShardReq),
 			statListShardsReq:       atomic.LoadInt64(&s.stats.ListShardsReq),
+			statHandlerPanic:        atomic.LoadInt64(&s.stats.HandlerPanic),
 		},
 	}}
 }
@@ -304,6 +308,17 @@ func (s *Service) Close() error {
 
 // handleConn services an individual TCP connection.
 func (s *Service) handleConn(conn net.Conn) {
+	// A request whose contents make a handler panic must not take the data node
+	// down (nothing else recovers in this goroutine): count it, log it and drop
+	// the connection, as net/http does for a panicking handler.
+	defer func() {
+		if r := recover(); r != nil {
+			atomic.AddInt64(&s.stats.HandlerPanic, 1)
+			s.Logger.Error("Panic while handling remote connection",
+				zap.String("panic", fmt.Sprint(r)), zap.String("stack", string(debug.Stack())))
+		}
+	}()
+
 	// Ensure connection is closed when service is closed.
 	closing := make(chan struct{})
 	defer close(closing)
